@@ -192,6 +192,8 @@ class SMUserList(UserList, ABC):
             if isinstance(arg[0], np.ndarray):
                 # possibly a list of numpy arrays
                 self.data = [self._import(x, check=check) for x in arg]
+                if any(x is None for x in self.data):
+                    raise ValueError('invalid element in list passed to constructor')
 
             elif type(arg[0]) == type(self):
                 # possibly a list of objects of same type
